@@ -22,9 +22,9 @@ TECH = {
     "C05": "Lean 4 proof: fault lemmas map each defect class to its status code over regenerated error tables; differential correspondence at every fault position",
     "C06": "Lean 4 proof: skipper consumes exactly one item of an item universe (induction), unknown text keys skipped at every host; differential correspondence",
     "C07": "Lean 4 proof: serializer bodies translated statement-by-statement to layout lists (obligation = specified layout), interpreter = model, layout theorem by case analysis + omega; differential correspondence",
-    "C08": "Lean 4 proof: decision-list theorems over a hand model of the U2F APDU parser + regenerated control-byte tables; differential correspondence incl. exhaustive headers",
+    "C08": "Lean 4 proof: decision-list theorems over a hand model of the U2F APDU parser + regenerated control-byte tables, parser body translated as a program (interpreter = model); differential correspondence incl. exhaustive headers, the P1 x P2 grid and 39 capacities of the owned command buffer",
     "C09": "Lean 4 proof: response arms translated to layout lists (obligation = U2F raw format), append-chain theorems; differential correspondence over capacities",
-    "C10": "Lean 4 proof: dispatch arms regenerated as tables, lookup theorem + default-method obligations; differential correspondence with a recording mock",
+    "C10": "Lean 4 proof: dispatch arms regenerated as tables, lookup theorem + default-method and Rpc-delegation obligations; differential correspondence with a recording mock (handler results and statuses compared as values, overriding authenticators)",
     "C11": "Lean 4 proof: kernel-evaluated (decide +kernel) obligations over all 256 command bytes on regenerated tables, lifted to every payload; differential correspondence",
     "C12": "Lean 4 proof: exact-capacity theorems per leaf and list (G-CAP) over regenerated capacities; differential correspondence at every limit +-1",
     "C13": "Lean 4 proof: UTF-8 scalar structure, 3-byte look-back always finds a boundary, truncation = longest whole-character prefix, message-level G-PREFIX (entity / request with a long name decodes as with the name cut beforehand); window regenerated; differential correspondence; Miri (thorough)",
